@@ -512,7 +512,10 @@ An attempt is ATOMIC in two pieces: `start` (everything up to the call of the fe
 the fixed configuration and the network, writes nothing on the handler) and `finish` (from the
 fetcher's return: state comparison, RFC 9207 check, exchange, `h.tokenSource = ts` under `mu`).  The
 model therefore computes the whole result of an attempt at its `finish` step from the attempt alone;
-the only effect on the handler is the token source served. -/
+the only effect on the handler is the token source served.  The finishing piece itself touches the
+handler only in its last statement, so the moment the fetcher returns (`answer`: the checks run and the
+token request leaves) is a step of its own WITHOUT effect: other attempts may start, be answered and
+finish while the token request of this one is under way. -/
 
 /-- The `state` of an authorization response: generated for attempt `k` of this handler (attempts are
 numbered in the order they start), or a value no attempt of this handler generated. -/
@@ -556,7 +559,9 @@ structure CHandler where
 
 inductive Step
   | start (a : Attempt)      -- `Authorize` is called; the attempt gets the next number
-  | finish (k : Nat)         -- the fetcher of attempt `k` returns (or the attempt ended before it)
+  | answer (k : Nat)         -- the fetcher of attempt `k` returns: state comparison, RFC 9207 check, the token request
+                             -- leaves — none of which reads or writes the handler; the attempt now waits for the token response
+  | finish (k : Nat)         -- attempt `k` runs to its end (from wherever it waits): token response, installation
 
 /-- The result of attempt `k` of a handler with configuration `c`. -/
 def attemptResult (c : HConfig) (k : Nat) (a : Attempt) : Result :=
@@ -565,6 +570,7 @@ def attemptResult (c : HConfig) (k : Nat) (a : Attempt) : Result :=
 /-- One step; `finish k` reports the number and the result of the attempt (nothing if no such attempt is in flight). -/
 def CHandler.step (c : CHandler) : Step → CHandler × Option (Nat × Result)
   | .start a => ({ c with started := c.started + 1, flight := c.flight ++ [(c.started, a)] }, none)
+  | .answer _ => (c, none)
   | .finish k =>
     match c.flight.lookup k with
     | none => (c, none)
